@@ -955,9 +955,30 @@ func mkOptCheapImg(seed, k uint64, w, h, kind, acls int) optImg {
 		map[string]any{"seed": seed, "k": k, "w": w, "h": h, "cheap": kind + 1, "acls": acls}, "cheap-" + cheapNames[kind]}
 }
 
+// mkOptColorImg: an opaque picture with exactly n distinct colours (thresholds.go GenColorCountImage).
+func mkOptColorImg(seed, k uint64, w, h, n int) optImg {
+	im := GenColorCountImage(NewRNG(seed, k), w, h, n)
+	return optImg{fmt.Sprintf("%dx%d/colours-%d#%d", w, h, n, k), im, w, h, false,
+		map[string]any{"seed": seed, "k": k, "w": w, "h": h, "colors": n}, "pal-count"}
+}
+
+// mkOptAlphaLevelsImg: a flat colour under an alpha plane with exactly n distinct levels
+// (thresholds.go GenAlphaLevelsImage): the ALPH plane of a lossy encode is a few-colour VP8L picture.
+func mkOptAlphaLevelsImg(seed, k uint64, w, h, n int) optImg {
+	im := GenAlphaLevelsImage(NewRNG(seed, k), w, h, n)
+	return optImg{fmt.Sprintf("%dx%d/alpha-levels-%d#%d", w, h, n, k), im, w, h, true,
+		map[string]any{"seed": seed, "k": k, "w": w, "h": h, "alevels": n}, "flat"}
+}
+
 // optImgFromSpec rebuilds the picture of a finding.
 func optImgFromSpec(sp map[string]any) optImg {
 	num := func(k string) int { v, _ := sp[k].(float64); return int(v) }
+	if n := num("colors"); n > 0 {
+		return mkOptColorImg(uint64(num("seed")), uint64(num("k")), num("w"), num("h"), n)
+	}
+	if n := num("alevels"); n > 0 {
+		return mkOptAlphaLevelsImg(uint64(num("seed")), uint64(num("k")), num("w"), num("h"), n)
+	}
 	if c := num("cheap"); c > 0 {
 		return mkOptCheapImg(uint64(num("seed")), uint64(num("k")), num("w"), num("h"), c-1, num("acls"))
 	}
@@ -1261,7 +1282,7 @@ var lossyOnly = []struct {
 
 func suiteOpts(rep *Report) error {
 	rich := rep.Tier == "thorough"
-	rep.Rule = "records: EncoderOptions values = fixed (nil, zero value, DefaultOptions, every preset) + single-field boundaries on a valid base + all pairs of fields × all pairs of boundary values {min-1,min,min+1,default,max-1,max,max+1,-1,-2,0,MinInt,MaxInt} (floats: ±0, subnormals, 99.99999, 100, 100.00001, -0.0001, NaN×3, ±Inf, ±MaxFloat32; metadata nil/empty/1/5/100MB/100MB+1) on valid bases (sampled in quick, complete ×60 bases in thorough) + full product of the small fields + fully random boundary records; each record goes through validateConfig (hook) and, with a writer/image situation (nil writer, nil image, dims 1x1 … 16384, ≤0, alpha), through Encode's front end, and through the Lean model (dimension pairs include Min>Max on BOTH axes: -3x-4, -1x-1, -16x-16, -16383x-16383, MinInt32xMinInt32); empty rectangles of every sign pattern on NRGBA/RGBA/Gray/NRGBA64/Paletted/generic images through the real Encode under a recover guard (must return the dimension error, write nothing); encodes: real webp.Encode on images ≤ 24x24 (lossy/lossless, with/without alpha) for sentinel/default pairs, nil vs DefaultOptions, lossy-only options under Lossless, EmulateJpegSize, Preset, boundary values, boundary dimensions, records the model resolves identically; every real Encode call: the caller's option struct is unchanged afterwards, a successful lossless output decodes to exactly the source (alpha-0 RGB free unless Exact), a successful lossy output has luma PSNR over the visible pixels >= floor (dB, smooth/hard content: q85-100 20/18, q60-84 26/18, q25-59 18/11, q0-24 and TargetSize/TargetPSNR 15/10; observed minima on the unchanged tree over quick seeds 1-3 + thorough seed 1: 26.45/26.08, 33.66/25.47, 24.78/17.12, 22.25/15.96; pictures with < 64 visible pixels not judged); layout-only options (Partitions 1..3, AlphaCompression 0, AlphaFiltering 0/2, metadata, EmulateJpegSize, Preset) on two large textured pictures (208x176 noise+alpha and 320x320 photo at Quality 90: 28..42 KB of token partitions = 320k..500k tokens counted with an instrumented build for seeds 1-3, i.e. 10..16 token pages of 32768) must decode to exactly the pixels of the Partitions=0 encode; 5 pictures per run (thorough 40) on threshold-crossing sizes (thresholds.go, cheap content) under nil == DefaultOptions() == OptionsForPreset(PresetDefault,75), decodable output and exact lossless; the nil/default/preset equivalence, DefaultOptions() vs model and the check that two DefaultOptions() results are distinct objects without shared state are re-run at the END of the suite and after each step of an animation prelude (animation.Encoder Lossless / Quality 10, two frames and one frame); non-trivial = record accepted by validateConfig or rejected by a check after the first one, and every encode pair whose base encode succeeded; distinct = FNV of the encoded record + situation"
+	rep.Rule = "records: EncoderOptions values = fixed (nil, zero value, DefaultOptions, every preset) + single-field boundaries on a valid base + all pairs of fields × all pairs of boundary values {min-1,min,min+1,default,max-1,max,max+1,-1,-2,0,MinInt,MaxInt} (floats: ±0, subnormals, 99.99999, 100, 100.00001, -0.0001, NaN×3, ±Inf, ±MaxFloat32; metadata nil/empty/1/5/100MB/100MB+1) on valid bases (sampled in quick, complete ×60 bases in thorough) + full product of the small fields + fully random boundary records; each record goes through validateConfig (hook) and, with a writer/image situation (nil writer, nil image, dims 1x1 … 16384, ≤0, alpha), through Encode's front end, and through the Lean model (dimension pairs include Min>Max on BOTH axes: -3x-4, -1x-1, -16x-16, -16383x-16383, MinInt32xMinInt32); empty rectangles of every sign pattern on NRGBA/RGBA/Gray/NRGBA64/Paletted/generic images through the real Encode under a recover guard (must return the dimension error, write nothing); encodes: real webp.Encode on images ≤ 24x24 (lossy/lossless, with/without alpha) for sentinel/default pairs, nil vs DefaultOptions, lossy-only options under Lossless, EmulateJpegSize, Preset, boundary values, boundary dimensions, records the model resolves identically; every real Encode call: the caller's option struct is unchanged afterwards, a successful lossless output decodes to exactly the source (alpha-0 RGB free unless Exact), a successful lossy output has luma PSNR over the visible pixels >= floor (dB, smooth/hard content: q85-100 20/18, q60-84 26/18, q25-59 18/11, q0-24 and TargetSize/TargetPSNR 15/10; observed minima on the unchanged tree over quick seeds 1-3 + thorough seed 1: 26.45/26.08, 33.66/25.47, 24.78/17.12, 22.25/15.96; pictures with < 64 visible pixels not judged); layout-only options (Partitions 1..3, AlphaCompression 0, AlphaFiltering 0/2, metadata, EmulateJpegSize, Preset) on two large textured pictures (208x176 noise+alpha and 320x320 photo at Quality 90: 28..42 KB of token partitions = 320k..500k tokens counted with an instrumented build for seeds 1-3, i.e. 10..16 token pages of 32768) must decode to exactly the pixels of the Partitions=0 encode; 3 noise pictures per run (thorough 6) of thresholds.go TokenCases() (48x48 .. 80x64, 33x120 at Quality 90, Methods 3..6: token count around ONE token page of 32768) under the same Partitions 1..3 == Partitions 0 pixel oracle; 5 pictures per run (thorough 40) on threshold-crossing sizes (thresholds.go, cheap content) and 3 (thorough all) colour-count pictures (GenColorCountImage, exactly n colours around 2 / 4 / 16 / 192 / 256) under nil == DefaultOptions() == OptionsForPreset(PresetDefault,75), decodable output and exact lossless; few-colour pictures wider than a transform tile (width 20..140, height 3..60): one lossless encode per cell of Method 0..6 x Quality {0,50,75,90,100} on a picture with n colours (n in 2,3,4,5,15,16,17 or a pal2/pal4/pal16/pal256 generator picture, with and without binary alpha) and one lossy encode per cell of Method 0..6 x AlphaQuality {100,90,50} whose ALPH plane has n alpha levels - no panic, decodable, lossless exact (buckets few-colours:*); the nil/default/preset equivalence, DefaultOptions() vs model and the check that two DefaultOptions() results are distinct objects without shared state are re-run at the END of the suite and after each step of an animation prelude (animation.Encoder Lossless / Quality 10, two frames and one frame); non-trivial = record accepted by validateConfig or rejected by a check after the first one, and every encode pair whose base encode succeeded; distinct = FNV of the encoded record + situation"
 
 	var lines, goOut, what []string
 	emit := func(line, g, w string) { lines = append(lines, line); goOut = append(goOut, g); what = append(what, w) }
@@ -1758,7 +1779,7 @@ func suiteOpts(rep *Report) error {
 	rep.CountN("model-equal-groups", nGroups)
 
 	// The blocks below are fixed lists, not samples: they get their own budget.
-	E.budget = E.used + 400
+	E.budget = E.used + 600
 	tBlock := time.Now()
 	lap := func(name string) {
 		rep.Extra["block_s:"+name] = math.Round(time.Since(tBlock).Seconds()*1000) / 1000
@@ -1791,18 +1812,40 @@ func suiteOpts(rep *Report) error {
 			{"EmulateJpegSize", func(o *webp.EncoderOptions) { o.EmulateJpegSize = true }},
 			{"Preset", func(o *webp.EncoderOptions) { o.Preset = webp.PresetPhoto }},
 		}
-		bigs := []struct {
+		type bigCase struct {
 			im   optImg
 			base *webp.EncoderOptions
 			vars []layoutOpt
-		}{
+			tok  *TokenCase // a picture of thresholds.go TokenCases(): token count AROUND one page, not far beyond it
+		}
+		bigs := []bigCase{
 			{mkOptImg(rep.Seed, 931, 208, 176, ClsNoise, AlphaGradient), &webp.EncoderOptions{Quality: 90, Method: 4, SNSStrength: 50, FilterStrength: 60, FilterType: 1,
-				Segments: 4, Pass: 1, QMax: 100, AlphaCompression: 1, AlphaFiltering: 1, AlphaQuality: 100}, append(append([]layoutOpt{}, parts...), others...)},
+				Segments: 4, Pass: 1, QMax: 100, AlphaCompression: 1, AlphaFiltering: 1, AlphaQuality: 100}, append(append([]layoutOpt{}, parts...), others...), nil},
 			{mkOptImg(rep.Seed, 932, 320, 320, ClsPhoto, AlphaNone), func() *webp.EncoderOptions {
 				o := webp.DefaultOptions()
 				o.Quality, o.Method = 90, []int{4, 2, 5, 3}[rep.Seed%4]
 				return o
-			}(), parts},
+			}(), parts, nil},
+		}
+		// token-count threshold (thresholds.go TokenCases): noise pictures at Quality 90 whose token count
+		// brackets ONE token page of 32768 (48x48 ~22 k ... 80x64 ~49 k, 33x120): 3 per run (thorough: all),
+		// Partitions 1..3 against Partitions 0, methods 3..6 (row-pipelined where >= 4 macroblock rows)
+		{
+			tcs := TokenCases()
+			nTok := 3
+			if rich {
+				nTok = len(tcs)
+			}
+			for j := 0; j < nTok && j < len(tcs); j++ {
+				tc := tcs[(int(rep.Seed%uint64(len(tcs)))+2*j)%len(tcs)]
+				if rich {
+					tc = tcs[j]
+				}
+				o := webp.DefaultOptions()
+				o.Quality, o.Method = float32(tc.Quality), []int{4, 3, 6, 5}[(int(rep.Seed)+j)%4]
+				tcc := tc
+				bigs = append(bigs, bigCase{mkOptImg(rep.Seed, uint64(940+j), tc.W, tc.H, ClsNoise, AlphaNone), o, parts, &tcc})
+			}
 		}
 		E.keep = true
 		for _, bg := range bigs {
@@ -1815,7 +1858,10 @@ func suiteOpts(rep *Report) error {
 			tb := vp8TokenBytes(rbase.data)
 			rep.Extra["big:"+bg.im.name+":file-bytes"] = len(rbase.data)
 			rep.Extra["big:"+bg.im.name+":token-partition-bytes"] = tb
-			if tb*8 > 2*32768 {
+			if bg.tok != nil {
+				rep.Count(bg.tok.T.Tag())
+				rep.Count(fmt.Sprintf("token-case:%dx%d:est-%dk-tokens", bg.tok.W, bg.tok.H, bg.tok.Est/1000))
+			} else if tb*8 > 2*32768 {
 				// no hook exposes the token count of a real Encode; counted once with an instrumented
 				// build (seeds 1-3): 208x176 noise q90 = 351.5k..352.2k tokens for 29.7 KB of token
 				// partitions, 320x320 photo q90 = 320k..500k tokens for 28..42 KB (about 12 tokens per
@@ -1875,7 +1921,77 @@ func suiteOpts(rep *Report) error {
 			rep.Count("threshold-content:" + im.cls)
 		}
 	}
+	// --- colour-count thresholds (2 / 4 / 16 colours: pixel packing, 192, 256: palette or not): exactly
+	//     n colours, nil / default / preset equivalence, exact lossless at two efforts ---
+	{
+		nCC := 3
+		if rich {
+			nCC = 100
+		}
+		for i, cc := range DrawCountCases(rep.Seed, 0x0921, nCC, "colors", 2, 300) {
+			r := NewRNG(rep.Seed, uint64(9_510_000+i))
+			w, h := 18+r.Intn(30), 15+r.Intn(20) // >= 270 pixels: room for 257 colours
+			im := mkOptColorImg(rep.Seed, uint64(9650+i), w, h, cc.N)
+			E.same(im, nil, webp.DefaultOptions(), "nil-vs-default:threshold", "nil options vs DefaultOptions() on "+cc.String()+" colours")
+			E.same(im, webp.DefaultOptions(), webp.OptionsForPreset(webp.PresetDefault, 75), "preset-default-vs-default:threshold", "OptionsForPreset(PresetDefault,75) vs DefaultOptions() on "+cc.String()+" colours")
+			E.encode(im, &webp.EncoderOptions{Lossless: true, Quality: 20, Method: 1})
+			E.encode(im, &webp.EncoderOptions{Lossless: true, Quality: []float32{75, 90, 100}[r.Intn(3)], Method: 4 + r.Intn(3)})
+			CountCount(rep, cc)
+		}
+	}
 	lap("thresholds")
+
+	// --- few-colour pictures wider than a transform tile, over the whole Method x Quality grid ---
+	// The lossless encoder switches transform stacks by (Method, Quality, palette size): palette with
+	// pixel packing (<= 16 colours: 2 / 4 / 8 pixels per packed pixel, the packed width is what the later
+	// transforms see), palette + predictor at high effort, no palette above 256.  Every cell of Method
+	// 0..6 x Quality {0, 50, 75, 90, 100} gets one lossless encode of a picture with n colours (n from
+	// 2, 3, 4, 5, 15, 16, 17 by GenColorCountImage, or a generator palette class with binary alpha) of
+	// width 20..140 (wider than a tile of 2^bits pixels also after packing) and height 3..60; Method
+	// 0..6 x AlphaQuality {100, 90, 50} gets one lossy encode whose ALPH plane has n alpha levels.
+	// Oracle of every encode of the suite: no panic, the file decodes, lossless output exact.
+	{
+		counts := []int{2, 3, 4, 5, 15, 16, 17}
+		palCls := []int{ClsPal2, ClsPal4, ClsPal16, ClsPal256}
+		idx := 0
+		for m := 0; m <= 6; m++ {
+			for _, q := range []float32{0, 50, 75, 90, 100} {
+				r := NewRNG(rep.Seed, uint64(9_520_000+idx))
+				w, h := 20+r.Intn(121), 3+r.Intn(58)
+				kind := (idx*3 + int(rep.Seed%11)) % (len(counts) + len(palCls))
+				var im optImg
+				if kind < len(counts) {
+					im = mkOptColorImg(rep.Seed, uint64(9700+idx), w, h, counts[kind])
+					rep.Count(fmt.Sprintf("few-colours:n=%d", counts[kind]))
+				} else {
+					im = mkOptImg(rep.Seed, uint64(9700+idx), w, h, palCls[kind-len(counts)], []int{AlphaNone, AlphaBinary}[r.Intn(2)])
+					rep.Count("few-colours:" + imgClassNames[palCls[kind-len(counts)]])
+				}
+				o := &webp.EncoderOptions{Lossless: true, Quality: q, Method: m, Exact: r.Chance(1, 4)}
+				if res, ok := E.encode(im, o); ok {
+					rep.Eval(true, []byte("few-colours|"+im.name+"|"+encOpts(o)))
+					rep.Count(fmt.Sprintf("few-colours:lossless:m%d", m))
+					rep.Count("few-colours:result:" + strings.SplitN(res.cls, " ", 2)[0])
+				}
+				idx++
+			}
+			for _, aq := range []int{100, 90, 50} {
+				r := NewRNG(rep.Seed, uint64(9_520_000+idx))
+				w, h := 20+r.Intn(121), 3+r.Intn(58)
+				n := counts[(idx+int(rep.Seed%7))%len(counts)]
+				im := mkOptAlphaLevelsImg(rep.Seed, uint64(9700+idx), w, h, n)
+				o := webp.DefaultOptions()
+				o.Quality, o.Method, o.AlphaQuality, o.AlphaFiltering = []float32{50, 75, 90}[r.Intn(3)], m, aq, r.Intn(3)
+				if res, ok := E.encode(im, o); ok {
+					rep.Eval(true, []byte("few-colours|"+im.name+"|"+encOpts(o)))
+					rep.Count(fmt.Sprintf("few-colours:lossy+alpha:levels=%d", n))
+					rep.Count("few-colours:result:" + strings.SplitN(res.cls, " ", 2)[0])
+				}
+				idx++
+			}
+		}
+	}
+	lap("few-colours")
 
 	// --- the equivalence block again: at the END of everything above, and after every step of a
 	//     scripted animation prelude (the animation package encodes its frames through hooks of the
